@@ -206,6 +206,10 @@ func genC15(seed uint64, idx int, tier string) *Scenario {
 					data = dnsQueryBytes(uint16(r.Intn(65536)), fmt.Sprintf("c%dq%d.%s.example", c, k, r.word(1, 10)))
 				} else {
 					data = r.Bytes(r.Range(1, 1200))
+					if r.Chance(0.15) {
+						// large datagrams, around the sizes relay buffers come in (kept below the 32 KiB of io.Copy's own buffer)
+						data = r.Bytes([]int{2047, 2048, 2049, 4094, 4095, 4096, 4097, 8190, 8192, 8193, 9000, 16384, 16385, 20000}[r.Intn(14)])
+					}
 				}
 				reply := append([]byte("R:"), data...)
 				exs = append(exs, c15Exchange{Req: hex.EncodeToString(data), Resp: hex.EncodeToString(reply)})
